@@ -1,2 +1,85 @@
 (* C10 — property theorems only: statement, `exact <lemma>`, Print Assumptions. *)
-From GL Require Import Stack.Registry Stack.StackApi.
+From GL Require Import Stack.Registry Stack.RegSpec Stack.StackApi
+  Stack.RegistryFacts Stack.StackApiFacts Stack.CallContractFacts.
+
+(* Rr r (pre ++ l) lim: the registry r holds the callers' cells pre (LocalBase = len pre) followed by
+   the activation's list l, and can hold lim cells.
+
+   Every script of Push/Pop/Get/SetTop/Insert/Remove/Replace/GetTop inside the domain (indices above
+   RegistryIndex; Insert not beyond top+1) that fits the registry logs exactly what the same script
+   logs on the list l alone (returned values, GetTop, Get(1..top) after every operation), and ends
+   with the registry holding the same callers' cells followed by the final list: the operations
+   never read or write the caller prefix. *)
+Theorem api_refines_list : forall ops r pre l lim,
+  Rr r (pre ++ l) lim -> L_dom l ops = true -> L_fits (len pre) lim l ops = true ->
+  fst (arun r (len pre) ops) = fst (L_run l ops) /\
+  exists lim', lim <= lim' /\ Rr (snd (arun r (len pre) ops)) (pre ++ snd (L_run l ops)) lim'.
+Proof. exact api_refines_list_lemma. Qed.
+Print Assumptions api_refines_list.
+
+(* the same for one operation, from any represented state: push_spec ... replace_spec in one
+   statement (L_step is the list meaning of each operation; the last component tells that
+   Pop beyond the bottom raised after emptying the list) *)
+Theorem api_step_refines : forall r pre l lim o,
+  Rr r (pre ++ l) lim -> aop_dom (len l) o = true -> aneed (len pre) (len l) o <= lim ->
+  match L_step l o with
+  | (l1, ret, false) => exists r1, astep r (len pre) o = (AOk r1, ret) /\ Rr r1 (pre ++ l1) lim
+  | (l1, ret, true) => exists r1, astep r (len pre) o = (ARaised r1, ret) /\
+                                  Rr r1 (pre ++ l1) (Z.max lim (len pre + 1))
+  end.
+Proof. exact astep_sim. Qed.
+Print Assumptions api_step_refines.
+
+(* reads outside 1..top / -1..-top give nil; 0, top+1, -(top+1) and everything farther are outside *)
+Theorem get_outside_nil : forall (l : list cell) idx,
+  validIdx (len l) idx = false -> L_get l idx = cNil.
+Proof. exact get_outside_nil_lemma. Qed.
+Print Assumptions get_outside_nil.
+
+Theorem boundary_indices : forall n, 0 <= n ->
+  validIdx n 0 = false /\ validIdx n (n + 1) = false /\ validIdx n (- (n + 1)) = false /\
+  (forall k, n < k -> validIdx n k = false /\ validIdx n (- k) = false) /\
+  (forall k, 1 <= k <= n -> validIdx n k = true /\ validIdx n (- k) = true /\
+                            absIndex n (- k) = n - k + 1).
+Proof. exact boundary_invalid_lemma. Qed.
+Print Assumptions boundary_indices.
+
+(* registry SetTop: nil-extends or truncates the live list; the cells it drops become Go nil *)
+Theorem settop_spec : forall r l lim t,
+  Rr r l lim -> 0 <= t <= lim ->
+  exists r', SetTop r t = Ok r' /\ Rr r' (resizeN l t) lim /\
+             (forall i, t <= i < len l -> rd (arr r') i = None) /\
+             (forall i, len l <= i < t -> rd (arr r') i = cNil).
+Proof. exact settop_spec_lemma. Qed.
+Print Assumptions settop_spec.
+
+(* a host function that leaves junk ++ results and returns len results: its frame (function slot
+   at len pre) is replaced by exactly NRet values — all of them for MultRet, nil-padded or
+   truncated otherwise (callGFunction's CopyRange + callR's SetTop) *)
+Theorem gfunction_results : forall r pre fn junk results nret lim,
+  Rr r (pre ++ fn :: junk ++ results) lim -> -1 <= nret -> len pre + nret <= lim ->
+  exists r', gReturn r (len pre) (len results) nret = Ok r' /\ Rr r' (pre ++ adjust nret results) lim.
+Proof. exact gfunction_results_lemma. Qed.
+Print Assumptions gfunction_results.
+
+(* the same for a Lua callee returning through OP_RETURN A B (copyReturnValues) *)
+Theorem lua_results : forall r pre fn regs A B wanted lim,
+  Rr r (pre ++ fn :: regs) lim -> 0 <= A -> 0 <= B -> -1 <= wanted ->
+  A + Z.max 0 (B - 1) <= len regs ->
+  len pre + wanted <= lim ->
+  exists r', luaReturn r (len pre + 1) A B (len pre) wanted = Ok r' /\
+             Rr r' (pre ++ adjust wanted (luaResults regs A B)) lim.
+Proof. exact lua_results_lemma. Qed.
+Print Assumptions lua_results.
+
+(* CallByParam{Fn, NRet, Protect} with a Go callee as a whole, from an activation whose list is l:
+   function and arguments are removed and exactly NRet results are left on top of l; when the
+   callee fails (protected) neither arguments nor partial results remain; pre is untouched *)
+Theorem call_contract : forall r pre l fn args junk results nret fails lim,
+  Rr r (pre ++ l) lim -> -1 <= nret ->
+  len pre + len l + 1 + len args + len junk + len results + 1 <= lim ->
+  len pre + len l + nret <= lim ->
+  exists r' lim', callByParamG r fn args junk results nret fails = Ok (r', fails) /\ lim <= lim' /\
+                  Rr r' (pre ++ l ++ (if fails then [] else adjust nret results)) lim'.
+Proof. exact call_contract_lemma. Qed.
+Print Assumptions call_contract.
